@@ -90,6 +90,7 @@ type Engine struct {
 	MaxDepth   int
 	Seams      func(key string) bool // interface methods never resolved to implementers
 	NoInline   func(key string) bool
+	Focus      []string              // additional predicate words (see FocusWords) that keep path classes apart for a rule family
 	PureFn     func(key string) bool // in-scope helpers kept opaque (with NoInline) that are functions of their arguments; their definitions are checked separately
 	KeepValues func(key string) bool // small pure helpers whose per-case result values are kept (not renamed to extract:i(call))
 	sites      map[siteKey]int32
@@ -868,6 +869,12 @@ func (e *Engine) isFocus(id term.ID) bool {
 	case "eq", "ne", "T", "F", "lt", "le":
 		s := e.T.String(id)
 		for _, w := range FocusWords {
+			if strings.Contains(s, w) {
+				v = true
+				break
+			}
+		}
+		for _, w := range e.Focus {
 			if strings.Contains(s, w) {
 				v = true
 				break
